@@ -15,7 +15,7 @@ FUNCS = [
 ASSUMPTIONS = [
     "the byte string of the Wav is concrete (distinct sample values); times are symbolic exact reals in [0, duration]",
     "pack/unpack identity: the C-level struct module is replaced by an arithmetic model of little-endian two's-complement packing (oracle/audio_ref.FakeStruct); sample values are symbolic over the full range of the width",
-    "Wav.open/save and QueryWav (wave module + file system) are outside the claim",
+    "Wav.save / Wav.open / QueryWav on real files (wave module + file system) are outside the solver's reach: one concrete cross-check (save-open-files-concrete), labelled as such; QueryWav's arithmetic is decided over an in-memory reader (query-*)",
 ]
 SAMPLES = [10, -20, 30, -40, 50, -60]
 CODE = {1: "b", 2: "h", 4: "i"}
@@ -232,6 +232,60 @@ def ob_read_edit_read(op, width, rate, timeout):
     return Ob("read-%s-read-w%d" % (op, width), F("a"), body, lambda a: within(0.0, dur, a), fmode="real", timeout=timeout, funcs=FUNCS[:3], bounds="read everything, %s at an arbitrary real time, read everything again (6 samples, width %d, rate %d)" % (op, width, rate))
 
 
+def ob_save_open_concrete():
+    """concrete cross-check through real files: saving then opening a Wav (or querying it
+    through QueryWav) yields the same samples and parameters"""
+    import os
+    import shutil
+    import tempfile
+
+    WIDTHS, RATES, COUNTS = [1, 2, 4], [8, 8000, 44100], [0, 1, 2, 3, 6, 7]
+
+    def check(w, r, c):
+        width, rate, n = WIDTHS[w], RATES[r], COUNTS[c]
+        top = 2 ** (8 * width - 1) - 1
+        if width == 1:  # 8-bit wav data is unsigned on disk; praatio reads it with the signed code 'b' both ways
+            xs = [((i * 37) % 256) - 128 for i in range(n)]
+        else:
+            xs = [(-top - 1, top, 0, -1, 1, 12345 % top, -(54321 % top))[i % 7] for i in range(n)]
+        wv = _wav(width, rate, xs)
+        d = tempfile.mkdtemp(prefix="verif_c16_")
+        try:
+            fn = os.path.join(d, "a.wav")
+            wv.save(fn)
+            back = audio.Wav.open(fn)
+            if _samples(back) != xs:
+                return "samples after save/open: %r" % (_samples(back),)
+            if (back.nchannels, back.sampleWidth, back.frameRate, back.nframes) != (1, width, rate, n):
+                return "parameters after save/open: %r" % ((back.nchannels, back.sampleWidth, back.frameRate, back.nframes),)
+            q = audio.QueryWav(fn)
+            if (q.nchannels, q.sampleWidth, q.frameRate, q.nframes) != (1, width, rate, n):
+                return "QueryWav parameters"
+            if n and list(q.getSamples(0.0, n / rate)) != xs:
+                return "QueryWav samples"
+            if q.duration != n / rate or back.duration != n / rate:
+                return "duration"
+            return True
+        finally:
+            shutil.rmtree(d, ignore_errors=True)
+
+    def run():
+        k = 0
+        for w in range(3):
+            for r in range(3):
+                for c in range(len(COUNTS)):
+                    k += 1
+                    try:
+                        res = check(w, r, c)
+                    except Exception as ex:  # noqa
+                        res = "exception " + type(ex).__name__ + ": " + str(ex)[:100]
+                    if res is not True:
+                        return {"verdict": "REFUTED", "queries": k, "cex_args": {"w": w, "r": r, "c": c}, "message": str(res), "refute_kind": "CONCRETE"}
+        return {"verdict": "CONFIRMED", "queries": k, "detail": "concrete cross-check"}
+
+    return Ob("save-open-files-concrete", I("w", "r", "c"), check, kind="smt", smt=run, timeout=120, funcs=["praatio.audio.Wav.save / Wav.open / QueryWav (file system)"], bounds="concrete cross-check: widths 1/2/4 x rates 8/8000/44100 x 0,1,2,3,6,7 samples (odd and even byte counts, extremes of the value range)")
+
+
 def _setup_struct():
     old = audio.struct
     audio.struct = AR.FakeStruct
@@ -266,7 +320,7 @@ def ob_pack(width, n, timeout):
 
 
 def obligations(tier):
-    obs = []
+    obs = [ob_save_open_concrete()]
     if tier == "quick":
         for width, rate in ((1, 8), (2, 8), (2, 10)):
             obs.append(ob_get(width, rate, 120))
